@@ -282,7 +282,3 @@ Definition witness_ops : list (op sym) :=
 Lemma inactive_token_authenticates :
   trace sym (init sym false true V256) witness_ops = [[0]; [0]; [0]; [200; 1; 0; 0; 0]]%N.
 Proof. vm_compute. reflexivity. Qed.
-
-Lemma empty_password_panics :
-  trace sym (init sym true true V256) [OP sym (CreateUser sym); OP sym (CmpPw sym 0 SEmpty)] = [[0]; [64]]%N.
-Proof. vm_compute. reflexivity. Qed.
